@@ -610,10 +610,46 @@ def cors_fields(chk, prog, cfg):
                f"for some configuration of the other parts `{f['name']}` is never looked at: its Access-Control-* header is silently missing from the response", path=w, cfg=cfg)
 
 
+def errorkind_outcomes(prog, fn):
+    """[(body path, {ErrorKind variant: set of RequestError variants that can be built once that variant was seen})] for every switch on an
+    io::ErrorKind in fn, its closures, the helpers inlined into it and the functions it hands over by name.  The walk from each edge is on
+    the product with the boolean store, so `matches!(kind, A | B)` followed by `if` is read like the `match` it abbreviates."""
+    from . import shared
+    from .. import absreach
+    out = []
+    for b in shared.family(prog, fn):
+        for s_ in range(len(b.blocks)):
+            info = switch_info(prog, b, s_)
+            if not info or info.get("kind") != "enum" or "io::ErrorKind" not in (info.get("src_ty") or "").replace("error::", ""):
+                continue
+            tab = {}
+            for lab, tgt in info["edges"].items():
+                seen = absreach.feasible_from(b, [tgt], prog)
+                vs = set()
+                for x in seen:
+                    for st in b.blocks[x]["stmts"]:
+                        rv = st.get("rv")
+                        if rv and rv.get("k") == "agg" and rv.get("adt", "").endswith("RequestError"):
+                            vs.add(rv.get("variant"))
+                tab[lab] = vs
+            out.append((b.path, tab))
+    return out
+
+
 def timeout_table(chk, prog):
     fn = "humphrey::http::request::Request::from_stream_with_timeout"
     ms = [m for m in tables.fn_tables(prog, fn) if "ErrorKind" in m.get("scrut_ty", "")]
-    chk.floor("ErrorKind table in from_stream_with_timeout", len(ms), 1)
+    if not ms:
+        # the mapper is a named function handed to map_err / a `matches!` / an or-pattern arm: read the same table off the MIR
+        got = errorkind_outcomes(prog, fn)
+        chk.floor("ErrorKind table in from_stream_with_timeout", len(got), 1)
+        for where_, tab in got:
+            for k in ("TimedOut", "WouldBlock"):
+                chk.ob("R2.timeout_kinds", fn, f"ErrorKind::{k} -> RequestError::Timeout", tab.get(k) == {"Timeout"},
+                       f"ErrorKind::{k} is mapped to {sorted(tab.get(k) or [])}: an idle connection would be treated as a disconnect (no 408)", cfg="A")
+            others = {k: v for k, v in tab.items() if k not in ("TimedOut", "WouldBlock")}
+            bad = sorted(k for k, v in others.items() if v != {"Disconnected"})
+            chk.ob("R2.timeout_kinds", fn, "other kinds -> Disconnected", len(others) >= 10 and not bad, f"kinds not mapped to Disconnected: {bad[:5]}", cfg="A")
     if ms:
         mp, rest, dup = tables.simple_map(ms[0], key_kinds=("path",))
         got = {tables.variant_name(k): (tables.variant_name(v[1]) if v[0] == "path" else None) for k, v in mp.items()}
